@@ -4,9 +4,11 @@ import (
 	"fmt"
 	"math/rand"
 	"reflect"
+	"strings"
 
 	lucene "github.com/grindlemire/go-lucene"
 	"github.com/grindlemire/go-lucene/verif/core"
+	"github.com/grindlemire/go-lucene/verif/gen"
 	"github.com/grindlemire/go-lucene/verif/mon"
 	"github.com/grindlemire/go-lucene/verif/oracle"
 	"github.com/grindlemire/go-lucene/verif/qt"
@@ -71,7 +73,7 @@ func newC04Plan(tier string) *c04Plan {
 
 func (c04) Batches(tier string, seed int64) int {
 	p := newC04Plan(tier)
-	return 1 + p.nTree + p.nDeep
+	return 2 + p.nTree + p.nDeep
 }
 
 func (c04) RunBatch(ctx *core.Ctx, batch int) {
@@ -86,6 +88,26 @@ func (c04) RunBatch(ctx *core.Ctx, batch int) {
 		// the quoted star as a range bound (a class of its own, see KNOWN_FINDINGS)
 		for _, t := range []*qt.Node{qt.Range("s", qt.Phrase("*"), qt.Word("zz"), true), qt.Range("s", qt.Word("aa"), qt.Phrase("*"), false), qt.Range("n", qt.Phrase("*"), qt.Int(5), true)} {
 			c04Tree(ctx, t, 0, true)
+		}
+	case batch == 1+p.nTree+p.nDeep:
+		// hostile strings as values in every value position (quoted, and escaped when eligible)
+		for _, h := range gen.HostileStrings {
+			if strings.Contains(h, `"`) {
+				continue
+			}
+			vals := []qt.Value{qt.Phrase(h)}
+			if h != "" && !isNumericText(h) && !isKeyword(h) {
+				vals = append(vals, qt.Escaped(h))
+			}
+			for _, v := range vals {
+				for _, t := range []*qt.Node{qt.F("f", v), qt.T(v), qt.Cmp("f", "<=", v), qt.List("f", v, qt.Word("zz")), qt.List("f", qt.Word("aa"), v, qt.Int(3)),
+					qt.Range("f", v, qt.Word("zz"), true), qt.Range("f", qt.Word("aa"), v, false), qt.And(qt.Not(qt.F("f", v)), qt.F("g", qt.Wild("w*")))} {
+					if v.S == "*" && t.Kind == qt.KRange {
+						continue // the quoted star as a range bound is the deterministic class of batch 0
+					}
+					c04Tree(ctx, t, 0, true)
+				}
+			}
 		}
 	case batch < 1+p.nTree:
 		lo, hi := batchRange(p.space.Size(), (batch-1)*p.step)
